@@ -42,6 +42,44 @@ Definition length_inserted : op := table_op "lengthOpType" [].
 Definition empty_inserted : op := table_op "emptyOpType" (str_of_string "EMPTY").
 Definition short_pipe_inserted : op := table_op "shortPipeOpType" (str_of_string ".").
 
+(* the tokens handleToken appends AFTER the current token (its last four
+   `if` blocks); [cur] is the current token after the rewrites of steps 1-3 *)
+Definition tail_ins (cur : rtok) (next : option rtok) : list tok :=
+  (* 5. slice without a second number: `:` `]` gets an implied length *)
+  (if rtok_is_op create_map_type cur then
+     match next with
+     | Some (RClose BCollect _) => [TOp length_inserted]
+     | _ => []
+     end
+   else []) ++
+  (* 6. `[]` and `{}` get an EMPTY operand *)
+  (match cur, next with
+   | ROpen BCollect, Some (RClose BCollect _) => [TOp empty_inserted]
+   | ROpen BObject, Some (RClose BObject _) => [TOp empty_inserted]
+   | _, _ => []
+   end) ++
+  (* 7. value followed by a path: implicit short pipe *)
+  (match next with
+   | Some n =>
+       if rtok_cpt cur && (rtok_is_op traverse_path_type n ||
+                           match n with RTraverseArrayCollect => true | _ => false end)
+       then [TOp short_pipe_inserted] else []
+   | None => []
+   end) ++
+  (* 8. value followed by `[`: implicit traverse-array *)
+  (match next with
+   | Some (ROpen BCollect) => if rtok_cpt cur then [TOp ta_inserted_post] else []
+   | _ => []
+   end).
+
+Definition tok_of_rtok (t : rtok) : list tok :=
+  match t with
+  | ROp o _ _ => [TOp o]
+  | ROpen b => [TOpen b]
+  | RClose b opt => [TClose b opt]
+  | RTraverseArrayCollect => []   (* unreachable: replaced in step 1 *)
+  end.
+
 (* handleToken(tokens, index, acc): [prev] = tokens[index-1] if any,
    [next] = tokens[index+1] if any.  Returns the tokens appended and
    skipNextToken. *)
@@ -67,45 +105,8 @@ Definition handle_token (prev : option rtok) (cur : rtok) (next : option rtok) :
         if type_is assign_type n then (ROp (set_val a (o_val n)) (Some a) c, true) else (cur1, false)
     | _, _ => (cur1, false)
     end in
-  (* 4. the token itself *)
-  let self_tok :=
-    match cur3 with
-    | ROp o _ _ => [TOp o]
-    | ROpen b => [TOpen b]
-    | RClose b opt => [TClose b opt]
-    | RTraverseArrayCollect => []   (* unreachable: replaced in step 1 *)
-    end in
-  (* 5. slice without a second number: `:` `]` gets an implied length *)
-  let post5 :=
-    if rtok_is_op create_map_type cur3 then
-      match next with
-      | Some (RClose BCollect _) => [TOp length_inserted]
-      | _ => []
-      end
-    else [] in
-  (* 6. `[]` and `{}` get an EMPTY operand *)
-  let post6 :=
-    match cur3, next with
-    | ROpen BCollect, Some (RClose BCollect _) => [TOp empty_inserted]
-    | ROpen BObject, Some (RClose BObject _) => [TOp empty_inserted]
-    | _, _ => []
-    end in
-  (* 7. value followed by a path: implicit short pipe *)
-  let post7 :=
-    match next with
-    | Some n =>
-        if rtok_cpt cur3 && (rtok_is_op traverse_path_type n ||
-                             match n with RTraverseArrayCollect => true | _ => false end)
-        then [TOp short_pipe_inserted] else []
-    | None => []
-    end in
-  (* 8. value followed by `[`: implicit traverse-array *)
-  let post8 :=
-    match next with
-    | Some (ROpen BCollect) => if rtok_cpt cur3 then [TOp ta_inserted_post] else []
-    | _ => []
-    end in
-  (pre1 ++ pre2 ++ self_tok ++ post5 ++ post6 ++ post7 ++ post8, skip).
+  (* 4. the token itself, then 5.-8. *)
+  (pre1 ++ pre2 ++ tok_of_rtok cur3 ++ tail_ins cur3 next, skip).
 
 (* postProcessTokens: the index loop with skipNextToken *)
 Fixpoint post_process_from (prev : option rtok) (ts : list rtok) (skip : bool) : list tok :=
